@@ -870,6 +870,20 @@ func (h *hist) step() {
 		if h.try("graph.Instance.SetNodeAsProducer", func() { h.g.SetNodeAsProducer(n.id, name) }) && r.Intn(5) != 0 {
 			h.grow(n, 3)
 		}
+		// round 11 (C12-P): the same node output published under a SECOND producer name, as App.Files does when two
+		// file names map to one output (graph.Instance.AddProducer is the public way)
+		if !h.dead && r.Intn(4) == 0 {
+			name2 := producerNames[r.Intn(len(producerNames))]
+			if name2 != name {
+				h.logf("producer %s also as %q", n.id, name2)
+				h.res.Count("op_second_producer_name_for_one_output", 1)
+				h.try("graph.Instance.AddProducer", func() {
+					if out := h.g.Producer(name); out != nil {
+						h.g.AddProducer(name2, out)
+					}
+				})
+			}
+		}
 	case x < 91:
 		h.metaSet()
 	case x < 93:
